@@ -496,13 +496,14 @@ def _is_any_not_done(fl: Flow) -> bool:
     return always_returns(after, normal_edge, False, [])
 
 
-def check_single(run: Run, prog: Program) -> None:
-    """who-may-call: _run only awaited from _run_loop; _run_loop only spawned from start()."""
+def _supervised_unit(prog: Program):  # type: ignore[no-untyped-def]
+    """(family, sites, unit, unit_names, start_unit): the functions of the Actor family, the call sites
+    of private `self._x(...)` methods, the supervised unit -- _run_loop plus the private Actor methods
+    that are called from inside the unit only (pieces of the run loop that were split off) -- and
+    likewise start() with the private pieces split off from it."""
     actor = prog.cls(ACTOR)
     actor_family = {c.qual for c in [actor] + prog.subclasses(actor)}
     family = [fn for fn in prog.all_functions() if fn.cls is not None and fn.cls.qual in actor_family]
-    # The supervised unit: _run_loop plus the private Actor methods that are called (as
-    # `self._x(...)`) from inside the unit only -- pieces of the run loop that were split off.
     sites: dict[str, list[tuple[object, ast.Call, bool]]] = {}
     for fn in family:
         awaited_calls = {id(x.value) for x in ast.walk(fn.node) if isinstance(x, ast.Await)}
@@ -536,6 +537,13 @@ def check_single(run: Run, prog: Program) -> None:
             if all(fn.qual in start_unit for fn, _, _ in where):
                 start_unit.add(m.qual)
                 changed = True
+    return family, sites, unit, unit_names, start_unit
+
+
+def check_single(run: Run, prog: Program) -> None:
+    """who-may-call: _run only awaited from _run_loop; _run_loop only spawned from start()."""
+    actor = prog.cls(ACTOR)
+    family, sites, unit, unit_names, start_unit = _supervised_unit(prog)
     n_run = 0
     for fn in family:
         called = set()
@@ -610,6 +618,135 @@ def check_single(run: Run, prog: Program) -> None:
     run.check(_is_any_not_done(ifl), "C10.SINGLE", ifl.qual, "return any(not task.done() ...)",
               "is_running is not `any(not task.done() for task in self._tasks)` — start() "
               "idempotence relies on it", node=ifl.fn.node, file=ifl.file)
+
+
+# ---------------------------------------------------------------------------------------------
+_SWALLOWING = {"CancelledError", "BaseException"}
+
+
+def check_cancel_points(run: Run, prog: Program) -> None:
+    """C10.CANCEL at *every* suspension point of the supervised run loop, not only at `await self._run()`.
+
+    stop()/cancel() may arrive while the actor is suspended anywhere in the loop: in the restart delay, in a
+    piece of the loop that was split off into a private coroutine, in an awaited helper.  Wherever the
+    CancelledError is delivered, it must leave the loop's coroutine as a CancelledError: a handler without
+    re-raise (`except CancelledError` / `except BaseException` / bare `except`), a `return`/`break`/`continue`
+    out of a `finally`, a `contextlib.suppress(...)` or a conversion into another exception makes the loop
+    carry on -- _run() is invoked again after the cancellation and stop() hangs, or reports a later failure.
+
+    The coroutines looked at: the supervised unit (see _supervised_unit) and, transitively, the private
+    coroutines (methods, module functions, closures) they await in place; `_run` itself is user code."""
+    _family, _sites, unit, _names, _start_unit = _supervised_unit(prog)
+    loop_q = f"{ACTOR}._run_loop"
+    todo = [prog.func(qn) for qn in sorted(unit)]
+    seen = {f.qual for f in todo}
+    flows: list[Flow] = []
+    depth = {f.qual: 0 for f in todo}
+    while todo:
+        fn = todo.pop(0)
+        if not fn.is_async:
+            continue
+        fl = _flow(run, prog, fn)
+        flows.append(fl)
+        if depth[fn.qual] >= 3:
+            continue
+        for i, c in fl.calls(lambda c: True):
+            if not fl.awaited(i, c) or not callee_tail(c).startswith("_") or callee_tail(c).startswith("__") \
+                    or callee_tail(c) == "_run":
+                continue
+            target = _resolve_helper(prog, fl, c.func)
+            if target is not None and target.is_async and target.qual not in seen:
+                seen.add(target.qual)
+                depth[target.qual] = depth[fn.qual] + 1
+                todo.append(target)
+    is_run = lambda c: method_call(c, "self", "_run")  # noqa: E731
+    piece_names = {fl.fn.name for fl in flows if fl.qual != loop_q}
+
+    def resumes_run(name: str, depth: int = 3) -> bool:
+        """After a normal return of the piece `name`, can its caller reach `await self._run()`?"""
+        for cf in flows:
+            runs = nodes_with_call(cf.cfg, is_run)
+            for i, _c in cf.calls(lambda c: callee_tail(c) == name):
+                after = cf.cfg.reachable([m for m, lab in cf.cfg.succ[i] if normal_edge(i, m, lab)])
+                if any(r in after for r in runs) or (
+                        cf.cfg.exit in after and cf.qual != loop_q and cf.fn.name != name and depth > 0
+                        and resumes_run(cf.fn.name, depth - 1)):
+                    return True
+        return False
+
+    for fl in flows:
+        cfg, q = fl.cfg, fl.qual
+        run_nodes = nodes_with_call(cfg, is_run)
+        sources = [n.id for n in cfg.nodes if n.ast is not None and not isinstance(n.ast, ast.Raise)
+                   and not (q == loop_q and n.id in run_nodes)  # (the loop's own _run() await: check_run_loop)
+                   and any(lab == "exc:C" for _m, lab in cfg.succ[n.id])]
+        n_bad = 0
+        for s in sources:
+            sn = cfg.nodes[s]
+            where = f"`{sn.text(70)}`"
+            targets = [m for m, lab in cfg.succ[s] if lab == "exc:C"]
+            reach = cfg.reachable(targets)
+            # what the loop does next when this coroutine simply returns
+            if q == loop_q:
+                goes_on = ("the run loop's task ends as if _run() had returned: wait()/run() see a clean finish "
+                           "instead of a cancellation")
+            elif resumes_run(fl.fn.name):
+                goes_on = (f"{fl.fn.name}() returns to the run loop as if nothing had happened and the loop goes on to "
+                           "`await self._run()`: the run logic is (re-)invoked after the cancellation, stop() hangs or "
+                           "returns a later failure")
+            else:
+                goes_on = f"{fl.fn.name}() returns to its caller in the run loop as if nothing had happened"
+            again = [x for x in run_nodes if x in reach]
+            if again:
+                wit = cfg.path(targets[0], again)
+                n_bad += 1
+                run.violation("C10.CANCEL", q, sn.ast,
+                              f"a cancellation that arrives while the actor is suspended at {where} can lead to "
+                              "another invocation of _run(): the run logic is re-invoked after a cancellation and "
+                              "stop() waits for a task that goes on running (any handler / finally / suppress around "
+                              "a suspension point of the run loop must let CancelledError through)",
+                              node=sn.ast, file=fl.file, path=fl.fmt(wit))
+                continue
+            if cfg.exit in reach:
+                wit = None
+                for t0 in targets:
+                    wit = wit or cfg.path(t0, [cfg.exit])
+                n_bad += 1
+                run.violation("C10.CANCEL", q, sn.ast,
+                              f"a cancellation that arrives while the actor is suspended at {where} is swallowed "
+                              f"(caught and not re-raised, or dropped by a jump out of `finally`), the cancellation "
+                              f"request of stop()/cancel() is consumed: {goes_on}.  "
+                              "Every suspension point of the supervised run loop (the restart delay, "
+                              "split-off pieces, awaited helpers) must let CancelledError propagate unchanged",
+                              node=sn.ast, file=fl.file, path=fl.fmt(wit))
+                continue
+            sup = _suppressed_classes(fl.fn.node, sn.ast) & _SWALLOWING
+            if sup:
+                n_bad += 1
+                run.violation("C10.CANCEL", q, sn.ast,
+                              f"the suspension point {where} sits inside `contextlib.suppress({', '.join(sorted(sup))})`: "
+                              f"a cancellation delivered there is swallowed and the request of stop()/cancel() is consumed: "
+                              f"{goes_on}", node=sn.ast, file=fl.file)
+                continue
+            # not swallowed: then it must still be a cancellation when it leaves (an Exception subclass raised in
+            # its place is an ordinary failure for the run loop: restart)
+            side = cfg.reachable(targets, edge_ok=normal_edge)
+            conv = [x for x in sorted(side) if isinstance(cfg.nodes[x].ast, ast.Raise)
+                    and cfg.nodes[x].ast.exc is not None  # type: ignore[union-attr]
+                    and not any(lab == "exc:C" for _m, lab in cfg.succ[x])]
+            if conv:
+                wit = cfg.path(targets[0], conv, edge_ok=normal_edge)
+                n_bad += 1
+                run.violation("C10.CANCEL", q, cfg.nodes[conv[0]].ast,
+                              f"a cancellation that arrives at {where} is replaced by another exception "
+                              f"(`{cfg.nodes[conv[0]].text(60)}`): the run loop sees an ordinary failure and restarts "
+                              "_run() after the cancellation (or stop() surfaces an error for a plain cancel)",
+                              node=cfg.nodes[conv[0]].ast, file=fl.file, path=fl.fmt(wit))
+        if not n_bad:
+            what = "the run loop" if q == loop_q else (
+                "split-off piece of the run loop" if fl.fn.name in piece_names and q in unit else "awaited helper")
+            run.ok("C10.CANCEL", f"{q}: a cancellation at any other suspension point ({what}) propagates as such",
+                   f"{len(sources)} suspension point(s) besides `await self._run()`")
 
 
 # ---------------------------------------------------------------------------------------------
@@ -1453,6 +1590,14 @@ CONTROLS = [
      "            if task.cancelled():\n", "            if not task.cancelled():\n", "C10.RUN"),
     ("owned component manager not stopped", "microgrid._power_distributing.power_distributing",
      "        await self._component_manager.stop()\n", "", "C10.SUPER"),
+    ("restart delay swallows a cancellation", "actor._actor",
+     "            await asyncio.sleep(delay)\n",
+     "            try:\n                await asyncio.sleep(delay)\n            except BaseException:\n"
+     "                _logger.info(\"interrupted\")\n", "C10.CANCEL"),
+    ("restart delay under suppress(CancelledError)", "actor._actor",
+     "            await asyncio.sleep(delay)\n",
+     "            with contextlib.suppress(asyncio.CancelledError):\n                await asyncio.sleep(delay)\n",
+     "C10.CANCEL"),
     ("cancel_and_await swallows every error", "_internal._asyncio",
      "    except asyncio.CancelledError:\n        pass\n",
      "    except BaseException:  # pylint: disable=broad-except\n        pass\n", "C10.STOP"),
@@ -1464,6 +1609,7 @@ CONTROLS = [
 def run_rules(run: Run, prog: Program) -> None:
     check_run_loop(run, prog)
     check_single(run, prog)
+    check_cancel_points(run, prog)
     check_stop(run, prog)
     check_cancel_and_await(run, prog)
     check_subclasses(run, prog)
@@ -1472,7 +1618,9 @@ def run_rules(run: Run, prog: Program) -> None:
 
 def check(run: Run, prog: Program, tier: str) -> str:
     run.rule("C10.RET", "after a normal return of _run() no path re-invokes it; the loop exits")
-    run.rule("C10.CANCEL", "a cancellation of _run() always propagates and never restarts")
+    run.rule("C10.CANCEL", "a cancellation of _run() -- or at any other suspension point of the supervised run loop: "
+             "the restart delay, split-off pieces, awaited private helpers -- always propagates as such and never "
+             "leads to another _run()")
     run.rule("C10.BASE", "a non-Exception BaseException of _run() always propagates, never restarts")
     run.rule("C10.RESTART", "an Exception restarts iff `limit is None or n < limit`, with exactly one "
              "increment and the restart delay before the next _run(); otherwise it propagates")
